@@ -23,7 +23,9 @@ RULE = ("Hypothesis draws a type tree (depth drawn first from 0..3, 0..4 in the 
         "driver containers and raw ints / timezone-aware datetimes with fixed offsets such as +05:30, +14:00, -12:00) and the way the type class is built (apply_parameters or lookup_casstype of the class-name "
         "string).  Non-trivial: tree depth >= 2, or the value is in a boundary class (integer at +-2^k+-1, varint >= 64 bit, non-BMP "
         "text, null inside a container, empty collection, protocol <= 2 with a top-level collection, timestamp outside 1970-2038, "
-        "short tuple, float special, date beyond datetime.date, a timezone-aware datetime input).  Distinctness by case digest.")
+        "short tuple, float special, date beyond datetime.date, a timezone-aware datetime input).  Part vint-size-boundaries enumerates vectors "
+        "(dimension 1-3) of variable-width element types with one element whose encoding is exactly 0, 1, 126..129, 255, 256, "
+        "16383..16385 or about 2^21 bytes.  Distinctness by case digest.")
 ASSUMPTIONS = [
     "float values are float32-representable; timestamps are naive or fixed-offset aware datetimes (or ints) with millisecond precision inside datetime's range; aware datetimes must come back as the naive UTC datetime of the same instant",
     "set elements / map keys are types the driver documents as orderable/serializable keys, contain no nulls and no NaN",
@@ -234,6 +236,24 @@ def interpret_null(case, ctx):
     ctx.nontrivial(True)
 
 
+def interpret_vint_size(case, ctx):
+    """round trip of vectors whose variable-width element sits on an unsigned-vint size boundary"""
+    tree, value = _drv.vsb_build(case)
+    pv, feat = case["pv"], "size=%d" % case["size"]
+    ctx.label("vint-size-boundary", "vsb:" + case["etype"])
+    ctx.nontrivial(True)
+    got = None
+    try:
+        with ctx.driver(["C01.roundtrip.raises", "vector-element-size", feat], expect=(V.NormaliseError,)):
+            typ = _drv.build_type(tree)
+            got = _drv.from_driver(tree, typ.from_binary(typ.to_binary(_drv.to_driver(tree, value, 0), pv), pv))
+    except V.NormaliseError as e:
+        ctx.fail(["C01.type", "vector-element-size", feat], str(e)[:300])
+    if not ctx._failures:
+        ctx.check(V.same(tree, value, got), ["C01.roundtrip", "vector-element-size", feat],
+                  "%s with an element of %d bytes does not survive the round trip" % (V.cql_name(tree), case["size"]))
+
+
 def parts(tier):
     return [
         hyp_part("roundtrip", s_roundtrip_quick if tier == "quick" else s_roundtrip_thorough, interpret_roundtrip, tier,
@@ -244,4 +264,5 @@ def parts(tier):
                          "pv:dse": 0.03, "depth:2": 0.04, "style:1": 0.03, "style:2": 0.03, "style:3": 0.03, "via:string": 0.04,
                          "f:aware-datetime": 0.004}),
         EnumPart("null", list(V.PROTOCOL_VERSIONS), null_cases, interpret_null),
+        EnumPart("vint-size-boundaries", _drv.vsb_chunks(), _drv.vsb_cases, interpret_vint_size),
     ]
